@@ -533,7 +533,24 @@ fn scale(ctx: &Ctx, rep: &mut Report) {
         tick(&ctx.progress, &c.describe());
         let base = run_fresh_w(c.wide, c.algo, c.method, c.n, &c.bits);
         let bs = match &base { Outcome::Ok { steps, .. } => steps.clone(), Outcome::Panic(..) => continue };
+        // the safe range of the property: no intermediate value may overflow or leave the normal
+        // range. Squared methods square the entries; sums carry factors up to 2n; differences of
+        // quantities of magnitude X are 0 or at least about ulp(X), hence the margin of 2^-80 (f32: 2^-40)
+        // below the smallest non-zero entry.
+        let vals = vals_of(&c);
+        let hi = vals.iter().fold(0.0f64, |m, x| m.max(x.abs()));
+        let lo = vals.iter().filter(|x| **x != 0.0).fold(f64::INFINITY, |m, x| m.min(x.abs()));
+        let e = if on_squares(c.method) { 2.0 } else { 1.0 };
+        let (emax, emin) = if c.wide { (1023.0, -1022.0) } else { (127.0, -126.0) };
+        let arithmetic = c.method >= 2;
+        let in_safe_range = |k: i32| -> bool {
+            if !arithmetic || hi == 0.0 { return true; }
+            let top = e * (hi.log2() + k as f64) + ((4 * c.n.max(1)) as f64).log2();
+            let bottom = e * (lo.log2() + k as f64) - (if c.wide { 80.0 } else { 40.0 });
+            top < emax - 4.0 && bottom > emin
+        };
         for &k in ks {
+            if !in_safe_range(k) || !in_safe_range(0) { continue; }
             let sb = scale_bits(&c.bits, c.wide, k);
             // the scaled input must be exactly representable back (no under/overflow)
             if scale_bits(&sb, c.wide, -k) != c.bits { continue; }
